@@ -692,7 +692,198 @@ def p_versions_table(dummy):
     return None
 
 
-PROPS = {"commute": p_commute, "refuse": p_refuse, "compose": p_compose, "case_notation": p_case_notation,
+# ---- state kept across calls on one key object (memoised serialisations / children / fingerprints going stale)
+
+
+def _r_pubraw(ver, pt, cc, depth, pfp, num):
+    return ver + bytes([depth]) + pfp + num.to_bytes(4, "big") + cc + r_serP(pt)
+
+
+def _r_prvraw(ver, k, cc, depth, pfp, num):
+    return ver + bytes([depth]) + pfp + num.to_bytes(4, "big") + cc + b"\x00" + k.to_bytes(32, "big")
+
+
+def _chk_pub_child(ch, st, i, what):
+    """ch = child i of the public node whose CURRENT state is st = dict(pt, cc, depth, net, ver)"""
+    rp = r_ckd_pub(st["pt"], st["cc"], i)
+    want = (list(rp[0]), rp[1], st["depth"] + 1, r_hash160(r_serP(st["pt"]))[:4], i, st["net"], st["ver"])
+    if _pubfields(ch) != want:
+        return f"{what}: public child {i} is {_pubfields(ch)}, reference derivation from the current fields gives {want}"
+    return None
+
+
+def p_pub_reuse(seed, net, vi, idxs, i1, i2, va, vb, seed2):
+    """ONE HDPublicKey object (the node seed/idxs) through a call history: xpub() with and without version
+    arguments in changing order with raw_serialize() in between, fingerprint, child(i1) / child(i2) / child(i1)
+    and the refusal of i1 + 2^31 afterwards, traverse with several spellings, then every public field
+    (chain_code, depth, parent_fingerprint, child_number, pub_version, network, point) replaced IN PLACE, each
+    followed by xpub / fingerprint / child / traverse: every answer equals the independent BIP32 reference
+    applied to the CURRENT fields.  (raw_serialize() after an in-place edit is not asked: HDPublicKey._raw is
+    a memo the code never invalidates — reported, not a regression.)"""
+    root = _root(seed, net, vi)
+    node = r_derive(seed, idxs)[-1]
+    rk, rc, rd, rfp, ri = node
+    st = {"pt": r_point(rk), "cc": rc, "depth": rd, "pfp": rfp, "num": ri, "net": NETS[net],
+          "ver": root.pub.pub_version}
+    pub = HDPublicKey(S256Point(*st["pt"]), rc, rd, rfp, ri, NETS[net], pub_version=st["ver"])
+    v1, v2 = ALL_PUB[va % 10], ALL_PUB[vb % 10]
+
+    def ser_checks(where):
+        for v in (None, v1, "raw", v2, None, v1) if where == "start" else (v1, None, v2):
+            if v == "raw":
+                for _ in range(2):
+                    if pub.raw_serialize() != _r_pubraw(hd.XPUB[st["net"]], st["pt"], st["cc"], st["depth"], st["pfp"], st["num"]):
+                        return "raw_serialize() between xpub(version) calls is not XPUB[network] || fields"
+                continue
+            want = r_b58check(_r_pubraw(st["ver"] if v is None else v, st["pt"], st["cc"], st["depth"], st["pfp"], st["num"]))
+            got = pub.xpub() if v is None else pub.xpub(version=v)
+            if got != want:
+                return f"{where}: xpub({'' if v is None else v.hex()}) on the reused key is {got}, current fields give {want}"
+        if pub.fingerprint() != r_hash160(r_serP(st["pt"]))[:4] or pub.fingerprint() != r_hash160(r_serP(st["pt"]))[:4]:
+            return f"{where}: fingerprint() is not hash160(sec of the current point)[:4]"
+        if pub.sec() != r_serP(st["pt"]) or pub.hash160() != r_hash160(r_serP(st["pt"])):
+            return f"{where}: sec()/hash160() differ from the current point"
+        return None
+
+    bad = ser_checks("start")
+    if bad:
+        return bad
+    for step, i in enumerate((i1, i2, i1, H31 - 1, i2)):
+        bad = _chk_pub_child(pub.child(i), st, i, f"call {step}")
+        if bad:
+            return bad
+    for i in (i1 + H31, i2 + H31, -1):
+        if not _raises(pub.child, i):
+            return f"HDPublicKey.child({i}) did not raise after child({i % H31}) had been derived from the same object"
+    for path, ii in (("m/%d/%d" % (i1, i2), (i1, i2)), ("m/%d/%d" % (i1, i1), (i1, i1)), ("M/%d/%d" % (i1, i2), (i1, i2)),
+                     ("m/%d" % i2, (i2,)), ("m", ())):
+        got = pub.traverse(path)
+        pt, cc = st["pt"], st["cc"]
+        for i in ii:
+            pt, cc = r_ckd_pub(pt, cc, i)
+        if (_vpoint(got.point), got.chain_code, got.depth, got.child_number) != \
+                (list(pt), cc, st["depth"] + len(ii), ii[-1] if ii else st["num"]):
+            return f"traverse({path!r}) on the reused key differs from the reference"
+    for p in ("m/%d'" % i1, "m/%dh/%d" % (i1, i2), "m/%d/%dH" % (i1, i2)):
+        if not _raises(pub.traverse, p):
+            return f"HDPublicKey.traverse({p!r}) did not raise after the unhardened path had been derived"
+    # in-place edits, one field at a time (values from a second seed)
+    k2, c2 = r_master(seed2)
+    other_net = NETS[(net + 1 + k2 % 3) % 4]
+    edits = [("chain_code", "cc", c2), ("depth", "depth", (st["depth"] + 1 + c2[0] % 200) % 255),
+             ("parent_fingerprint", "pfp", c2[4:8]), ("child_number", "num", int.from_bytes(c2[8:12], "big")),
+             ("pub_version", "ver", v2 if v2 != st["ver"] else v1), ("network", "net", other_net),
+             ("point", "pt", r_point(k2)), ("chain_code", "cc", rc)]
+    for fld, key, val in edits:
+        st[key] = val
+        setattr(pub, fld, S256Point(*val) if fld == "point" else val)
+        bad = ser_checks(f"after setting .{fld} in place")
+        if bad:
+            return bad
+        bad = _chk_pub_child(pub.child(i1), st, i1, f"after setting .{fld} in place")
+        if bad:
+            return bad
+        if pub.address() != HDPublicKey(S256Point(*st["pt"]), st["cc"], st["depth"], st["pfp"], st["num"], st["net"],
+                                        pub_version=st["ver"]).address():
+            return f"after setting .{fld} in place: address() differs from a fresh key with the same fields"
+    return None
+
+
+def p_priv_reuse(seed, net, vi, idxs, i1, va, vb, seed2):
+    """ONE HDPrivateKey object through a call history: xprv()/xpub() with and without versions in changing order,
+    child(i1), child(i1 + 2^31), child(i1) again, boundary indexes, traverse of look-alike paths (m/a'/b, m/a/b,
+    m/ah/b, M/aH/b), then the fields the private side reads (chain_code, depth, parent_fingerprint,
+    child_number, priv_version, network) replaced IN PLACE, each followed by xprv / child: every answer equals
+    the independent BIP32 reference on the CURRENT fields.  (xpub() after such an edit is not asked: the
+    HDPublicKey copy kept in .pub is filled once by the constructor.)"""
+    root = _root(seed, net, vi)
+    k = root
+    for j in idxs:
+        k = k.child(j)
+    rk, rc, rd, rfp, ri = r_derive(seed, idxs)[-1]
+    st = {"k": rk, "cc": rc, "depth": rd, "pfp": rfp, "num": ri, "net": NETS[net], "ver": root.priv_version}
+    pubver = root.pub.pub_version
+    v1, v2 = ALL_PRV[va % 10], ALL_PRV[vb % 10]
+    w1 = ALL_PUB[vb % 10]
+    fp = r_hash160(r_serP(r_point(rk)))[:4]
+
+    def xprv_checks(where):
+        for v in (None, v1, v2, None, v1):
+            want = r_b58check(_r_prvraw(st["ver"] if v is None else v, st["k"], st["cc"], st["depth"], st["pfp"], st["num"]))
+            got = k.xprv() if v is None else k.xprv(version=v)
+            if got != want:
+                return f"{where}: xprv({'' if v is None else v.hex()}) on the reused key is {got}, current fields give {want}"
+        return None
+
+    def chk_child(ch, i, where):
+        ck, cc = r_ckd_priv(st["k"], st["cc"], i)
+        got = (ch.private_key.secret, ch.chain_code, ch.depth, ch.parent_fingerprint, ch.child_number, ch.network,
+               ch.priv_version, ch.pub.pub_version, _vpoint(ch.pub.point), ch.pub.chain_code, ch.pub.depth, ch.pub.child_number)
+        want = (ck, cc, st["depth"] + 1, fp, i, st["net"], st["ver"], pubver, list(r_point(ck)), cc, st["depth"] + 1, i)
+        if got != want:
+            return f"{where}: private child {i} is {got}, reference derivation from the current fields gives {want}"
+        if ch.xprv() != r_b58check(_r_prvraw(st["ver"], ck, cc, st["depth"] + 1, fp, i)):
+            return f"{where}: xprv of private child {i} differs from the reference"
+        return None
+
+    bad = xprv_checks("start")
+    if bad:
+        return bad
+    for v in (None, w1, None):
+        want = r_b58check(_r_pubraw(pubver if v is None else v, r_point(rk), rc, rd, rfp, ri))
+        if (k.xpub() if v is None else k.xpub(version=v)) != want:
+            return "xpub() of the reused private key differs from the reference"
+    if k.fingerprint() != fp or k.fingerprint() != fp:
+        return "fingerprint() of the reused private key"
+    for step, i in enumerate((i1, i1 + H31, i1, H31 - 1, H31, i1 + H31)):
+        bad = chk_child(k.child(i), i, f"call {step}")
+        if bad:
+            return bad
+    a, b = i1, (i1 * 7 + 1) % 50
+    for path, ii in (("m/%d'/%d" % (a, b), (a + H31, b)), ("m/%d/%d" % (a, b), (a, b)), ("m/%dh/%d" % (a, b), (a + H31, b)),
+                     ("M/%dH/%d'" % (a, b), (a + H31, b + H31)), ("m/%d/%d" % (a, b), (a, b)), ("m", ())):
+        got = k.traverse(path)
+        kk, cc = st["k"], st["cc"]
+        for i in ii:
+            kk, cc = r_ckd_priv(kk, cc, i)
+        if (got.private_key.secret, got.chain_code, got.depth, got.child_number) != \
+                (kk, cc, st["depth"] + len(ii), ii[-1] if ii else st["num"]):
+            return f"traverse({path!r}) on the reused private key differs from the reference"
+    k2, c2 = r_master(seed2)
+    edits = [("chain_code", "cc", c2), ("depth", "depth", (st["depth"] + 1 + c2[0] % 200) % 255),
+             ("parent_fingerprint", "pfp", c2[4:8]), ("child_number", "num", int.from_bytes(c2[8:12], "big")),
+             ("priv_version", "ver", v2 if v2 != st["ver"] else v1), ("network", "net", NETS[(net + 1 + k2 % 3) % 4]),
+             ("chain_code", "cc", rc)]
+    for n_, (fld, key, val) in enumerate(edits):
+        st[key] = val
+        setattr(k, fld, val)
+        bad = xprv_checks(f"after setting .{fld} in place")
+        if bad:
+            return bad
+        i = i1 + (H31 if n_ % 2 else 0)
+        bad = chk_child(k.child(i), i, f"after setting .{fld} in place")
+        if bad:
+            return bad
+    return None
+
+
+def p_blind_history(seed, idx1, secrets):
+    """module-level blind_xpub called several times with one xpub and different secret paths (repeats included):
+    each answer is the xpub at the combined path, computed by the independent reference"""
+    p1 = _path_text(idx1, 0)
+    x = r_xpub(hd.XPUB["mainnet"], r_derive(seed, idx1)[-1])
+    for step, idx2 in enumerate(secrets):
+        r = blinding.blind_xpub(x, p1, _path_text(idx2, step % 4))
+        want = r_xpub(hd.XPUB["mainnet"], r_derive(seed, idx1 + idx2)[-1])
+        if r["blinded_child_xpub"] != want:
+            return f"call {step}: blind_xpub with secret path {_path_text(idx2, 0)!r} differs from the reference xpub"
+        if r["blinded_full_path"] != _path_text(idx1 + idx2, 1):
+            return f"call {step}: blinded_full_path {r['blinded_full_path']!r}"
+    return None
+
+
+PROPS = {"pub_reuse": p_pub_reuse, "priv_reuse": p_priv_reuse, "blind_history": p_blind_history,
+         "commute": p_commute, "refuse": p_refuse, "compose": p_compose, "case_notation": p_case_notation,
          "pub_path_same_as_priv": p_pub_path_same_as_priv, "vs_reference": p_vs_reference,
          "xkey_roundtrip": p_xkey_roundtrip, "raw_roundtrip": p_raw_roundtrip, "bad_xkey": p_bad_xkey,
          "blind": p_blind, "vectors": p_vectors, "versions_table": p_versions_table}
@@ -990,3 +1181,21 @@ def generate(ctx):
             yield ("corr", "blind_xpub", [raw, _path_text(a + [1], 0), _path_text(b, 0)])
             yield ("corr", "blind_xpub", [raw, _path_text(a, 0), _path_text(b + [H31], 0)])
             yield ("corr", "blind_xpub", [raw, "m" + "//1" * len(a), "m//2"])
+
+    # ---- state kept across calls: one key object through a call history with in-place edits
+    for i in range(ctx.n(3, 40)):
+        seed, seed2 = rseed(r, ctx), ctx.rbytes(16)
+        net, vi = (i + 1) % 4, [-1, 2, 0, 4][i % 4]
+        idxs = rpath(r, 2)
+        i1 = [5, H31 - 2][i % 2] if i < 2 else r.randrange(0, H31 - 1)
+        i2 = r.choice([0, 1, i1 + 1, r.randrange(0, H31)])
+        ctx.label("reuse/one-HDPublicKey-history+edits")
+        yield ("prop", "pub_reuse", [seed, net, vi, idxs, i1, i2, i, i + 3 + r.randrange(5), seed2])
+        ctx.label("reuse/one-HDPrivateKey-history+edits")
+        yield ("prop", "priv_reuse", [rseed(r, ctx), (net + 2) % 4, [1, -1, 3][i % 3], rpath(r, 2),
+                                      r.randrange(0, 50) if i % 2 == 0 else r.randrange(0, H31 - 1), i + 1, i + 2 + r.randrange(6),
+                                      ctx.rbytes(16)])
+    for i in range(ctx.n(2, 20)):
+        s1, s2 = [ridx(r, False), ridx(r, False)], [ridx(r, False)]
+        ctx.label("reuse/blind_xpub-history")
+        yield ("prop", "blind_history", [rseed(r, ctx), rpath(r, 2), [s1, s2, s1, s1[:1] + s2, s2]])
